@@ -6,7 +6,7 @@
 (* Columns!CoercedType prescribes is printed with the case.                                     *)
 EXTENDS Columns, Json
 
-Kinds == {"u64", "i64", "f64", "bool", "date", "ip", "str", "bytes", "mixed"}
+Kinds == {"u64", "i64", "f64", "bool", "date", "ip", "str", "bytes", "mixed", "tok"}   \* tok: token occurrences of a tokenized text fast field
 PatternsOf(k) ==
   CASE k \in {"u64", "i64"} -> {"const", "linear", "linear_noise", "blockwise", "small", "gcd", "bits", "clusters", "sorted", "extremes", "full",
                                  "above32", "gcd32", "wide31"}      \* values just above 2^32, with a gcd, 31 bits wide
@@ -16,6 +16,7 @@ PatternsOf(k) ==
     [] k = "ip" -> {"small", "clusters", "extremes", "full"}
     [] k = "str" -> {"const", "small", "prefix", "full"}
     [] k = "bytes" -> {"const", "small", "full"}
+    [] k = "tok" -> {"rep", "rep2", "small"}        \* tiny vocabularies: the same token twice in a row, also across two values
     [] k = "mixed" -> {"iu", "i_neg_u", "u_big", "neg_big", "if", "all3"}
 ClassesOfPattern(k, p) ==
   CASE k = "u64" -> IF p \in {"extremes", "full", "bits", "clusters"} THEN {"small", "big"} ELSE {"small"}
@@ -65,6 +66,10 @@ GInit ==
   /\ \A n \in {FullBlockRows - 1, FullBlockRows} : \A blk \in {0, 1} :
        PrintT(<<"CASE", ToJson([what |-> "fullblock", count |-> n, block |-> blk, nrows |-> 2 * OptionalBlockRows + 500,
                                  merge_with |-> 100, merge |-> [order |-> "stack", keep |-> 1000, perm |-> "identity"]])>>)
+  \* a tokenized text fast field is a multi-valued str column holding every token occurrence of the document,
+  \* in order (adjacent repeats included): dedicated index-path cases
+  /\ \A p \in PatternsOf("tok") : \A c \in {"multi", "optional", "full"} : \A m \in {x \in Merges : x.perm = "identity" /\ x.keep # 30} :
+       PrintT(<<"CASE", ToJson([what |-> "tokcol", pattern |-> p, card |-> c, merge |-> m])>>)
 GNext == done' = TRUE /\ UNCHANGED cvars
 GSpec == GInit /\ [][GNext]_<<done, cvars>>
 =============================================================================
